@@ -51,13 +51,14 @@ type Part struct {
 type Node interface{}
 
 type Emit struct {
-	Lit    bool
-	Raw    bool // (*RangeWriter).write — below the literal-coalescing layer
-	Indent bool // WriteIndent: the indent is written before the text and is not part of the returned range
-	Parts  []Part
-	Pos    token.Pos
-	Res    types.Object // variable receiving the returned range, if any
-	ResStr string
+	Lit     bool
+	Raw     bool // (*RangeWriter).write — below the literal-coalescing layer
+	Indent  bool // WriteIndent: the indent is written before the text and is not part of the returned range
+	Parts   []Part
+	Pos     token.Pos
+	Res     types.Object // variable receiving the returned range, if any
+	ResStr  string
+	ResAlso types.Object // the caller's variable that receives this result when the emission sits in a helper evaluated in place that returns it
 }
 
 // Inline: the body of a parametric helper (an unexported emitter whose text depends on its string / Expression
@@ -1047,6 +1048,12 @@ func (ev *gemEval) foldTextFunc(fn *types.Func, args []ast.Expr, e *env) ([]Part
 	if sig == nil || sig.Recv() != nil || ev.depth > 4 {
 		return nil, false
 	}
+	if parts, ok := ev.foldByteBuilderFunc(fn, args, e); ok {
+		return parts, true
+	}
+	if parts, ok := ev.foldStraightLineTextFunc(fn, args, e); ok {
+		return parts, true
+	}
 	// a selector of code text: a function that returns one of several constants depending on its (boolean / string)
 	// parameters — the text is one of those constants (the one its conditions select, when they are known here)
 	if !isTextFunc(sig) && sig.Results().Len() == 1 && isStringType(sig.Results().At(0).Type()) {
@@ -1159,6 +1166,212 @@ func (ev *gemEval) foldTextFunc(fn *types.Func, args []ast.Expr, e *env) ([]Part
 		}
 		lit := &ast.FuncLit{Type: fd.Type, Body: fd.Body}
 		return ev.foldLit(&litVal{lit, newEnv()}, args, e), true
+	}
+	return nil, false
+}
+
+// foldStraightLineTextFunc: a function of the package that returns a string, takes at least one parameter that is not
+// a string (a parser.Expression, a position) and whose body is straight-line — assignments to locals, then one
+// `return <string expression>`: the returned text with the string parameters bound to what the caller passes; what
+// depends on the other parameters stays a hole of the right kind (a number printed with Itoa is a number).
+func (ev *gemEval) foldStraightLineTextFunc(fn *types.Func, args []ast.Expr, e *env) ([]Part, bool) {
+	info := ev.info()
+	sig, _ := fn.Type().(*types.Signature)
+	if sig == nil || fn.Pkg() != ev.g.pkg.Types || sig.Results().Len() != 1 || !isStringType(sig.Results().At(0).Type()) || isTextFunc(sig) {
+		return nil, false
+	}
+	for _, fd := range allFuncDecls(ev.g.pkg) {
+		if info.Defs[fd.Name] != types.Object(fn) || fd.Body == nil || fd.Recv != nil || len(fd.Body.List) == 0 {
+			continue
+		}
+		ret, ok := fd.Body.List[len(fd.Body.List)-1].(*ast.ReturnStmt)
+		if !ok || len(ret.Results) != 1 {
+			return nil, false
+		}
+		// a concatenation that contains at least one constant piece (code text), not a pass-through
+		if be, ok := ast.Unparen(ret.Results[0]).(*ast.BinaryExpr); !ok || be.Op != token.ADD {
+			return nil, false
+		}
+		e2 := newEnv()
+		k := 0
+		for _, prm := range fd.Type.Params.List {
+			for _, nm := range prm.Names {
+				if k >= len(args) {
+					return nil, false
+				}
+				if ob := info.Defs[nm]; ob != nil && isStringType(ob.Type()) {
+					e2.vals[ob] = ev.fold(args[k], e)
+				}
+				k++
+			}
+		}
+		sub := &gemEval{g: ev.g, gf: ev.gf, depth: ev.depth + 1}
+		for _, st := range fd.Body.List[:len(fd.Body.List)-1] {
+			as, ok := st.(*ast.AssignStmt)
+			if !ok {
+				return nil, false
+			}
+			if len(as.Lhs) == len(as.Rhs) {
+				for i, l := range as.Lhs {
+					if id, ok := l.(*ast.Ident); ok {
+						if ob := info.ObjectOf(id); ob != nil && isStringType(ob.Type()) {
+							e2.vals[ob] = sub.fold(as.Rhs[i], e2)
+						}
+					}
+				}
+			}
+		}
+		parts := sub.fold(ret.Results[0], e2)
+		hasConst := false
+		for _, p := range parts {
+			if p.Kind == PConst && strings.TrimSpace(p.Const) != "" {
+				hasConst = true
+			}
+		}
+		if !hasConst {
+			return nil, false
+		}
+		return parts, true
+	}
+	return nil, false
+}
+
+// foldByteBuilderFunc: a function of the package that assembles one line of code in a []byte and returns it as a
+// string — locals that are strings, one buffer made with make([]byte, 0, …), `b = append(b, <string>...)`,
+// `b = strconv.AppendInt(b, <n>, 10)`, `return string(b)` — applied to the arguments: the concatenation of the pieces.
+func (ev *gemEval) foldByteBuilderFunc(fn *types.Func, args []ast.Expr, e *env) ([]Part, bool) {
+	info := ev.info()
+	sig, _ := fn.Type().(*types.Signature)
+	if sig == nil || fn.Pkg() != ev.g.pkg.Types || sig.Results().Len() != 1 || !isStringType(sig.Results().At(0).Type()) {
+		return nil, false
+	}
+	for _, fd := range allFuncDecls(ev.g.pkg) {
+		if info.Defs[fd.Name] != types.Object(fn) || fd.Body == nil || fd.Recv != nil || len(fd.Body.List) < 3 {
+			continue
+		}
+		ret, ok := fd.Body.List[len(fd.Body.List)-1].(*ast.ReturnStmt)
+		if !ok || len(ret.Results) != 1 {
+			return nil, false
+		}
+		conv, ok := ast.Unparen(ret.Results[0]).(*ast.CallExpr)
+		if !ok || len(conv.Args) != 1 {
+			return nil, false
+		}
+		if tv, isType := info.Types[conv.Fun]; !isType || !tv.IsType() {
+			return nil, false
+		}
+		bid, ok := ast.Unparen(conv.Args[0]).(*ast.Ident)
+		if !ok {
+			return nil, false
+		}
+		buf := info.ObjectOf(bid)
+		if t := buf.Type(); t == nil || t.String() != "[]byte" {
+			return nil, false
+		}
+		// parameters: strings by what the caller passes, numbers as numbers
+		e2 := newEnv()
+		k := 0
+		ints := map[types.Object]ast.Expr{}
+		for _, prm := range fd.Type.Params.List {
+			for _, nm := range prm.Names {
+				if k >= len(args) {
+					return nil, false
+				}
+				ob := info.Defs[nm]
+				if ob != nil && isStringType(ob.Type()) {
+					e2.vals[ob] = ev.fold(args[k], e)
+				} else if ob != nil {
+					ints[ob] = args[k]
+				}
+				k++
+			}
+		}
+		numberOf := func(x ast.Expr) Part {
+			x = ast.Unparen(x)
+			if cv, ok := x.(*ast.CallExpr); ok && len(cv.Args) == 1 {
+				if tv, ok := info.Types[cv.Fun]; ok && tv.IsType() {
+					x = ast.Unparen(cv.Args[0])
+				}
+			}
+			if id, ok := x.(*ast.Ident); ok {
+				if a, ok := ints[info.ObjectOf(id)]; ok {
+					return Part{Kind: PInt, Src: types.ExprString(a)}
+				}
+			}
+			return Part{Kind: PInt, Src: types.ExprString(x)}
+		}
+		var out []Part
+		made := false
+		sub := &gemEval{g: ev.g, gf: ev.gf, depth: ev.depth + 1}
+		for _, st := range fd.Body.List[:len(fd.Body.List)-1] {
+			as, ok := st.(*ast.AssignStmt)
+			if !ok || len(as.Lhs) != 1 || len(as.Rhs) != 1 {
+				return nil, false
+			}
+			lid, ok := as.Lhs[0].(*ast.Ident)
+			if !ok {
+				return nil, false
+			}
+			lob := info.ObjectOf(lid)
+			if lob != buf {
+				// a string local (tabs := strings.Repeat("\t", indent))
+				if !isStringType(lob.Type()) {
+					return nil, false
+				}
+				rhs := as.Rhs[0]
+				if rc, ok := ast.Unparen(rhs).(*ast.CallExpr); ok && len(rc.Args) == 2 {
+					if rfn := calleeOf(info, rc); rfn != nil && fullName(rfn) == "strings.Repeat" {
+						if tv, ok := info.Types[rc.Args[0]]; ok && tv.Value != nil && constant.StringVal(tv.Value) == "\t" {
+							src := types.ExprString(rc.Args[1])
+							if id, ok := ast.Unparen(rc.Args[1]).(*ast.Ident); ok {
+								if a, ok := ints[info.ObjectOf(id)]; ok {
+									src = types.ExprString(a)
+								}
+							}
+							e2.vals[lob] = []Part{{Kind: PIndent, Src: src}}
+							continue
+						}
+					}
+				}
+				e2.vals[lob] = sub.fold(rhs, e2)
+				continue
+			}
+			call, ok := ast.Unparen(as.Rhs[0]).(*ast.CallExpr)
+			if !ok {
+				return nil, false
+			}
+			switch {
+			case types.ExprString(call.Fun) == "make":
+				if made || len(call.Args) < 2 {
+					return nil, false
+				}
+				if v, ok := constInt(info, call.Args[1]); !ok || v != 0 {
+					return nil, false
+				}
+				made = true
+			case types.ExprString(call.Fun) == "append" && len(call.Args) == 2 && call.Ellipsis.IsValid():
+				if aid, ok := ast.Unparen(call.Args[0]).(*ast.Ident); !ok || info.ObjectOf(aid) != buf || !made {
+					return nil, false
+				}
+				out = append(out, sub.fold(call.Args[1], e2)...)
+			default:
+				cf := calleeOf(info, call)
+				if cf == nil || (fullName(cf) != "strconv.AppendInt" && fullName(cf) != "strconv.AppendUint") || len(call.Args) != 3 || !made {
+					return nil, false
+				}
+				if aid, ok := ast.Unparen(call.Args[0]).(*ast.Ident); !ok || info.ObjectOf(aid) != buf {
+					return nil, false
+				}
+				if base, ok := constInt(info, call.Args[2]); !ok || base != 10 {
+					return nil, false
+				}
+				out = append(out, numberOf(call.Args[1]))
+			}
+		}
+		if !made {
+			return nil, false
+		}
+		return out, true
 	}
 	return nil, false
 }
@@ -1570,6 +1783,64 @@ func (ev *gemEval) funcValues(x ast.Expr, e *env, depth int) []ast.Expr {
 	return nil
 }
 
+// relabelReturnedRange: in the bodies of helpers evaluated in place (Inline) among nodes, an emission whose result
+// variable is one the helper returns as its first result gets the caller's variable as its result.
+func (ev *gemEval) relabelReturnedRange(nodes []Node, resObj types.Object, resStr string) []Node {
+	info := ev.info()
+	var fix func(ns []Node, returned map[types.Object]bool) []Node
+	fix = func(ns []Node, returned map[types.Object]bool) []Node {
+		out := make([]Node, len(ns))
+		for i, nd := range ns {
+			switch x := nd.(type) {
+			case Emit:
+				if returned != nil && x.Res != nil && returned[x.Res] {
+					x.ResAlso = resObj
+				}
+				out[i] = x
+			case Alt:
+				nb := make([][]Node, len(x.Branches))
+				for k, b := range x.Branches {
+					nb[k] = fix(b, returned)
+				}
+				x.Branches = nb
+				out[i] = x
+			case Loop:
+				x.Body = fix(x.Body, returned)
+				out[i] = x
+			case Inline:
+				ret := returned
+				if x.Fn != nil && returned == nil {
+					ret = map[types.Object]bool{}
+					for _, fd := range allFuncDecls(ev.g.pkg) {
+						if info.Defs[fd.Name] != types.Object(x.Fn) || fd.Body == nil {
+							continue
+						}
+						ast.Inspect(fd.Body, func(n ast.Node) bool {
+							if _, isLit := n.(*ast.FuncLit); isLit {
+								return false
+							}
+							if r, ok := n.(*ast.ReturnStmt); ok && len(r.Results) >= 1 {
+								if id, ok := ast.Unparen(r.Results[0]).(*ast.Ident); ok {
+									if v, isVar := info.ObjectOf(id).(*types.Var); isVar {
+										ret[v] = true
+									}
+								}
+							}
+							return true
+						})
+					}
+				}
+				x.Body = fix(x.Body, ret)
+				out[i] = x
+			default:
+				out[i] = nd
+			}
+		}
+		return out
+	}
+	return fix(nodes, nil)
+}
+
 func (ev *gemEval) assign(s *ast.AssignStmt, e *env) []Node {
 	var out []Node
 	// result variable for emitter calls: first LHS
@@ -1586,6 +1857,11 @@ func (ev *gemEval) assign(s *ast.AssignStmt, e *env) []Node {
 			em.Res = resObj
 			em.ResStr = resStr
 		})...)
+	}
+	// r, err := g.writeExpression(x): the range the helper returns — the result of the emission inside it that wrote
+	// into the variable it returns — is the caller's r
+	if resObj != nil {
+		out = ev.relabelReturnedRange(out, resObj, resStr)
 	}
 	if len(s.Lhs) == len(s.Rhs) {
 		for i, l := range s.Lhs {
